@@ -159,7 +159,7 @@ def multi_schedule(r, adversarial=False):
     return toks
 
 
-ARITY = {"BB": 4, "RX": 1, "PL": 2, "R": 1, "G": 1, "W": 0, "WE": 0, "D": 1, "T": 1, "CA": 0, "CF": 0, "SEL": 1, "P": 1, "PS": 2, "PG": 3, "PT": 2, "B": 1, "H": 0, "U": 0, "RN": 2, "RS": 2}
+ARITY = {"BB": 4, "RX": 1, "PL": 2, "R": 1, "G": 1, "W": 0, "WE": 0, "D": 1, "T": 1, "CA": 0, "CF": 0, "SEL": 1, "P": 1, "PS": 2, "PG": 3, "PT": 2, "B": 1, "H": 0, "U": 0, "RN": 2, "RS": 2, "AW": 1}
 
 
 def regress_schedules(pid):
@@ -359,6 +359,15 @@ def check_C11(chk, tier, seed):
         toks.append(f"PL {hx(hops[j])} {hx(300000)}")
     toks += [f"P {hx(hops[5])}", f"PL {hx(hops[7])} {hx(70000)}", f"P {hx(hops[6])}"]
     cases.append((line(toks), toks, True))
+    # a future that was looked at once while pending (a `timeout(&mut fut)` that elapsed, a `select!` that took another branch) and
+    # is then awaited by ANOTHER task: it completes there when the answer comes (whoever asks last is the one to be woken)
+    for k, toks in enumerate([
+            ["R a1", "W", "AW 0", "P a1"],
+            ["R a1", "W", "R a2", "W", "AW 1", "AW 0", "P a1", "P a2"],
+            ["R a1", "W", "T 3e8", "AW 0", "T 3e8", "P a1"],
+            ["R a1", "W", "R a2", "W", "AW 0", "P a2", "P a1"],
+            ["R a1", "G 5", "AW 0", "W", "P a1"]]):
+        cases.append((line(toks), toks, True))
     # adversarial peers (safety only): unsolicited, duplicated, wrong-id answers
     for k in range(300 if tier == "quick" else 20000):
         r = rng.fork(f"a{k}")
@@ -483,6 +492,24 @@ def check_C12(chk, tier, seed):
             ["R 51", "W", "RS 51 0", "P 51", "R 51", "W", "P 51"],
             ["R 51", "W", "R 51", "W", "D 0", "T 3e8", "P 51", "R 53", "W", "P 53"]]):
         cases.append((line(toks), toks, "resend"))
+    # answers and the end of the stream arriving TOGETHER (one segment carries the last answers and the FIN): the answers are
+    # delivered, then the rest is released - whichever order a reader's internals would like to process them in
+    for k, n in enumerate((1, 2, 3, 4)):
+        hops = [0x70 + j for j in range(n)]
+        for early in range(n):
+            for kind2 in ("eof", "reset", "garbage"):
+                toks = []
+                for hp in hops:
+                    toks += [f"R {hx(hp)}", "W"]
+                toks += [f"P {hx(hp)}" for hp in hops[:early]]
+                toks += ["H"] + [f"P {hx(hp)}" for hp in hops[early:n - 1]] + [f"B {kind2}", "U"] if n > 1 or early == 0 else []
+                if toks:
+                    cases.append((line(toks), toks, "answers-with-end"))
+        toks = []
+        for hp in hops:
+            toks += [f"R {hx(hp)}", "W"]
+        toks += ["H"] + [f"P {hx(hp)}" for hp in hops] + ["B eof", "U"]
+        cases.append((line(toks), toks, "answers-with-end"))
     # MANY requests outstanding when the stream ends (more than any window, table capacity or permit pool a client might keep:
     # 300, 1100, 2100; thorough 70000), some answered first; every future fails, and one more send afterwards is refused
     for n in (300, 1100, 2100) if tier == "quick" else (300, 1100, 2100, 70000):
